@@ -2531,11 +2531,19 @@ class View(Module):
         self._set_synapses_in_view(pointer)
 
         ptr_recs = pointer.recordings
-        self.recordings = (
-            pd.DataFrame()
-            if ptr_recs.empty
-            else ptr_recs.loc[ptr_recs["rec_index"].isin(self._comps_in_view)]
-        )
+        if ptr_recs.empty:
+            self.recordings = pd.DataFrame()
+        else:
+            # Recordings of synaptic states and currents are indexed by edge, all other
+            # recordings are indexed by compartment.
+            _, edge_states = self.base._get_state_names()
+            is_edge_rec = ptr_recs["state"].isin(edge_states).to_numpy()
+            in_view = np.where(
+                is_edge_rec,
+                ptr_recs["rec_index"].isin(self._edges_in_view).to_numpy(),
+                ptr_recs["rec_index"].isin(self._comps_in_view).to_numpy(),
+            )
+            self.recordings = ptr_recs.loc[in_view]
 
         self.channels = self._channels_in_view(pointer)
         self.membrane_current_names = [c.current_name for c in self.channels]
